@@ -193,7 +193,7 @@ def mutate(rng: random.Random, data: bytes) -> bytes:
 
 def hostile(rng: random.Random) -> bytes:
     """Adversarial compression graphs up to the datagram limit."""
-    kind = rng.choice(['chain', 'chain', 'cycle', 'self', 'forward', 'deepchain', 'labels', 'rdata-pointer', 'manyq'])
+    kind = rng.choice(['chain', 'chain', 'cycle', 'self', 'forward', 'deepchain', 'labels', 'rdata-pointer', 'manyq', 'longrd', 'longrd'])
     hdr = bytearray([0, 0, 0x84, 0, 0, 0, 0, 1, 0, 0, 0, 0])
     if kind in ('chain', 'deepchain'):
         # pointer i points to pointer i-1 ... down to a terminating name
@@ -237,6 +237,19 @@ def hostile(rng: random.Random) -> bytes:
         n = rng.choice([120, 127, 128, 129, 200])
         name = b''.join(bytes([1]) + b'a' for _ in range(n)) + b'\0'
         return bytes(hdr) + name + bytes([0, 16, 0, 1, 0, 0, 0, 1, 0, 0])
+    if kind == 'longrd':
+        # a PTR whose rdata name is around / beyond the 253 character limit, then records whose owner name (and rdata name) are
+        # bare pointers to the start of that rdata name: the limit holds however a name is reached
+        tail = rng.choice([1, 2, 3, 4, 9, 40])
+        long_name = b''.join(bytes([49]) + bytes([97 + k]) * 49 for k in range(5)) + bytes([tail]) + b'z' * tail + b'\0'
+        first = b'\x01x\x00' + bytes([0, 12, 0, 1, 0, 0, 0, 120, len(long_name) >> 8, len(long_name) & 255]) + long_name
+        at = 12 + 3 + 10
+        p2 = bytes([0xC0 | (at >> 8), at & 255])
+        second = p2 + bytes([0, 16, 0, 1, 0, 0, 0, 120, 0, 2, 1, 97])
+        third = b'\x01y\x00' + bytes([0, 12, 0, 1, 0, 0, 0, 120, 0, 2]) + p2
+        recs = [first] + rng.choice([[second, third], [third, second], [second], [third]])
+        hdr[7] = len(recs)
+        return bytes(hdr) + b''.join(recs)
     if kind == 'rdata-pointer':
         # a PTR whose rdata name points into the rdata of an earlier TXT record
         hdr[7] = 2
